@@ -98,6 +98,35 @@ func (p *Program) computePhases() error {
 			}
 		}
 	}
+	if len(clos) == 0 {
+		// the closure is built by a helper that Parse calls and whose result Parse returns
+		for _, b := range parse.Blocks {
+			for _, ins := range b.Instrs {
+				call, ok := ins.(*ssa.Call)
+				if !ok {
+					continue
+				}
+				sc := call.Call.StaticCallee()
+				if sc == nil || !p.InPkg(sc) || sc.Blocks == nil || sc.Signature.Results().Len() != 1 || !types.Identical(sc.Signature.Results().At(0).Type(), want) {
+					continue
+				}
+				for _, bb := range sc.Blocks {
+					for _, x := range bb.Instrs {
+						if mc, ok := x.(*ssa.MakeClosure); ok && types.Identical(mc.Type(), want) {
+							clos = append(clos, mc.Fn.(*ssa.Function))
+						}
+					}
+				}
+				if len(clos) == 0 {
+					for _, a := range sc.AnonFuncs {
+						if types.Identical(a.Signature, want) {
+							clos = append(clos, a)
+						}
+					}
+				}
+			}
+		}
+	}
 	if len(clos) != 1 {
 		return infra("anchor unresolved: evaluation closure of Parse (found %d candidates)", len(clos))
 	}
